@@ -150,7 +150,7 @@ def gen_case(rng, tier):
 
 
 def gen(rng, tier):
-    for _ in range(400 if tier == "quick" else 30000):
+    for _ in range(1200 if tier == "quick" else 30000):
         yield gen_case(rng, tier)
 
 
